@@ -21,6 +21,16 @@ Tie (three parts, all on the working tree on every run):
     entered and every user method invoked per request; `allowed_calls` is the property's "which handler may run" (none for
     unknown protocol / method, unsupported method, unreadable parameters), the model's `dispatch` (driver line `inv`) must
     predict the real dispatch of every request.
+    NESTED framing (harness/rmc_frames.py, lean/NxModel/Nex/RmcRequest.lean): the schema of every request (parameter types,
+    structure layouts with their version gates) is read from the code under test; a well-formed body of every method gets
+    ONE length / count / version / tag field changed at any nesting depth (structure frame sizes with structure headers on,
+    anydata holder lengths, buffer / string lengths, list / map counts: smaller than needed by 1..all with the bytes kept
+    or cut, larger with padding / swallowing what follows / past the end, right but followed by surplus; with and
+    without bytes appended to the body, enclosing frames adjusted or not). The reference reader (`FR.reference`, Lean twin
+    `RmcRequest.readRequest`, compared on every case) says whether the parameters are readable and with which values:
+    unreadable -> exactly one error response of the exception's class and NO handler invoked; readable -> the handler is
+    invoked once with exactly those values (`handler-arguments`). The model computes the extraction outcome from the
+    request's own body (extract token `m<hdr>:<schema>`).
     For every request the compiled model (`nxdrv_C11`, line `full`) must predict both what the real
     `server.handle()` did and the exact bytes sent back (or silence, or that the exception leaves the loop).
  3. oracle on the real code = the property's outcome table, judged independently of the model.
@@ -30,6 +40,7 @@ import vf
 import rmc_servers as T
 import rmc_server_sim as R
 import rmc_results as RES
+import rmc_frames as FR
 from nintendo.nex import errors, settings as nexsettings
 
 LEVEL = "proof"
@@ -103,6 +114,83 @@ def mk_case(si, idx, method, body, script, kind, extract, rng, protocol=None, ca
             "script": script, "kind": kind, "extract": extract}
 
 
+_SEEN_FR = collections.Counter()
+
+
+def with_ref(case, sch, hdr, tys, ref=None):
+    """attach the reference reading of the request's parameters (None if the reference reader declines)"""
+    if ref is None: ref = FR.reference(sch, hdr, tys, bytes.fromhex(case["body"]))
+    if ref is None: return None
+    case["extract"] = "ref"
+    case["rq"] = {"tys": tys, "hdr": 1 if hdr else 0}
+    case["ref"] = {k: v for k, v in ref.items() if k != "marks"}
+    return case
+
+
+def frame_cases(si, idx, m, body, S, rng, quick, script, cases):
+    """malformed NESTED framing: the well-formed body of method `m` with one length / count / version / tag field lying"""
+    hdr = bool(S["nex.struct_header"])
+    sch = FR.schema_for(S)
+    tys = sch.method_tys(si, m)
+    if tys is None: return None
+    pristine = FR.reference(sch, hdr, tys, body, trace=True)
+    if pristine is None: return None
+    if pristine["out"] != "ok": raise vf.InfraError("reference reader rejects the well-formed body of %s.%s: %s" % (si["class"], m["user"], body.hex()))
+    marks = pristine["marks"]
+    cands = FR.candidates(marks, len(body))
+    groups = {}
+    for c in cands: groups.setdefault((marks[c[0]]["kind"], c[1]), []).append(c)
+    chosen = []
+    if quick:
+        must = [g for g in groups if g[0] in ("struct-size", "any-inner", "any-outer") and g[1] in FR.SHORT]
+        if must:
+            g = rng.choice(sorted(must)); chosen.append((rng.choice(groups[g]), 1, rng.choice([0, 8, 40])))
+            _SEEN_FR[g] += 1
+        order = sorted(sorted(groups), key=lambda g: rng.random() ** (1.0 + _SEEN_FR[g]))
+        for g in order[::-1][:9]:
+            chosen.append((rng.choice(groups[g]), rng.random() < 0.5, rng.choice([0, 0, 1, 8, 40])))
+            _SEEN_FR[g] += 1
+    else:
+        pick = cands if len(cands) <= 120 else rng.sample(cands, 120)
+        chosen = [(c, fo, rng.choice([0, 0, 1, 8, 40])) for c in pick for fo in (0, 1)]
+    for cand, fix_outer, tail in chosen:
+        mu = FR.mutate(body, marks, cand, fix_outer, tail, rng)
+        if mu is None: continue
+        mk, mut = marks[cand[0]], cand[1]
+        ref = FR.reference(sch, hdr, tys, mu[0])
+        if ref is None: continue
+        # what the construction alone guarantees (a check of the reference reader itself)
+        if mk["kind"] == "struct-size" and mk.get("full") and mut == "short-cut" and fix_outer and not (ref["out"] == "err" and ref["cls"] == "other"):
+            raise vf.InfraError("reference reader accepts a cut structure frame: %s.%s %s" % (si["class"], m["user"], mu[0].hex()))
+        if mk["kind"] == "struct-size" and mut == "long-pad" and fix_outer and not (ref["out"] == "ok" and ref["canon"] == pristine["canon"]):
+            raise vf.InfraError("reference reader: padding inside a structure frame changes the values: %s.%s %s" % (si["class"], m["user"], mu[0].hex()))
+        sc = script("ok") if rng.random() < 0.85 else script("stub")
+        c = mk_case(si, idx, m["id"], mu[0], sc, "frame:%s:%s" % (mk["kind"], mut), "ref", rng)
+        c["what"] = mu[1]
+        cases.append(with_ref(c, sch, hdr, tys, ref))
+    return sch, hdr, tys, pristine
+
+
+def frames_for_server(si, idx, rng, tier, minor):
+    """the framing cases of every method alone (job kind `frames`: the configuration with structure headers, for the classes
+    whose main job runs without), each method's malformed requests followed by a well-formed one"""
+    S = session_settings(minor)
+    cases = []
+    def script(mode, **kw):
+        sc = {"mode": mode, "vseed": rng.randrange(1 << 30)}
+        sc.update(kw); return sc
+    for m in si["methods"]:
+        if not m["supported"]: continue
+        try: body = R.valid_body(si, m, S, rng.randrange(1 << 30))
+        except R.V.Unbuildable: continue
+        got = frame_cases(si, idx, m, body, S, rng, tier == "quick", script, cases)
+        if got:
+            sch, hdr, tys, pristine = got
+            c = with_ref(mk_case(si, idx, m["id"], body, script("ok"), "ok", "ok", rng), sch, hdr, tys, pristine)
+            if c: cases.append(c)
+    return cases
+
+
 def cases_for_server(si, idx, rng, tier, minor, all_codes):
     quick = tier == "quick"
     S = session_settings(minor)
@@ -133,10 +221,15 @@ def cases_for_server(si, idx, rng, tier, minor, all_codes):
             aliases(m, b"")
             continue
         aliases(m, body)
+        # malformed nested framing; the reference reading of the well-formed body (what the handler must be invoked with)
+        got = frame_cases(si, idx, m, body, S, rng, quick, script, cases)
+        def refd(c):
+            if got: return with_ref(c, got[0], got[1], got[2]) or c
+            return c
         # valid body: stub / success / failures
-        cases.append(mk_case(si, idx, m["id"], body, script("stub"), "stub", "ok", rng))
-        cases.append(mk_case(si, idx, m["id"], body, script("ok"), "ok", "ok", rng))
-        cases.append(mk_case(si, idx, m["id"], body + rng.randbytes(rng.randint(1, 8)), script("ok"), "ok-extended-body", "ok", rng))
+        cases.append(refd(mk_case(si, idx, m["id"], body, script("stub"), "stub", "ok", rng)))
+        cases.append(refd(mk_case(si, idx, m["id"], body, script("ok"), "ok", "ok", rng)))
+        cases.append(refd(mk_case(si, idx, m["id"], body + rng.randbytes(rng.randint(1, 8)), script("ok"), "ok-extended-body", "ok", rng)))
         cases.append(mk_case(si, idx, m["id"], body, script("wrong"), "wrong-type:" + m["resp"], "ok", rng))
         if m["resp"] == "m":
             cases.append(mk_case(si, idx, m["id"], body, script("missing"), "missing-field", "ok", rng))
@@ -174,7 +267,7 @@ def cases_for_server(si, idx, rng, tier, minor, all_codes):
             rb = rng.randbytes(rng.choice([0, 1, 2, 4, 8, 16, 40]))
             if rng.random() < 0.5 and body:
                 bb = bytearray(body); bb[rng.randrange(len(bb))] ^= 1 << rng.randrange(8); rb = bytes(bb)
-            cases.append(mk_case(si, idx, m["id"], rb, script(rng.choice(["stub", "ok"])), "random-body", "observed", rng))
+            cases.append(refd(mk_case(si, idx, m["id"], rb, script(rng.choice(["stub", "ok"])), "random-body", "observed", rng)))
     # one method gets the whole catalogue in every tier
     sup = [m for m in si["methods"] if m["supported"]]
     if sup:
@@ -292,6 +385,10 @@ def _worker(job):
     if kind == "server":
         cases = unknown_protocol_cases(srvinfos, rng, 2, minor) + cases_for_server(srvinfos[0], 0, rng, tier, minor, all_codes)
         jobs = [(srvinfos, cases, minor)]
+    elif kind == "frames":
+        cases = frames_for_server(srvinfos[0], 0, rng, tier, minor)
+        rng.shuffle(cases)
+        jobs = [(srvinfos, cases, minor)]
     elif kind == "lethal":
         cases = lethal_cases(srvinfos[0], 0, rng)
         # each lethal case in its own session, followed by a probe that can no longer be answered
@@ -312,8 +409,26 @@ def _worker(job):
             sel = [i for i, (c, x) in enumerate(zip(j[1], r)) if not x.get("skipped") and fresh_wanted(c, x, rng)]
             fr = R.run_fresh(j[0], [j[1][i] for i in sel], j[2])
             fresh = dict(zip(sel, fr))
-        out.append((j[0], j[1], r, j[2], fresh))
+        out.append((j[0], j[1], r, j[2], fresh, schema_export(j[1], j[2])))
     return out
+
+
+def schema_export(cases, minor):
+    """what the Lean driver needs to read the parameters of this session's requests: the structure layouts (by key) and the
+    holder names the reference reader resolved; the reference trees (needed only while the session ran) are dropped"""
+    sch, keys, names = None, [], {}
+    for c in cases:
+        if c.get("extract") != "ref": continue
+        if sch is None: sch = FR.schema_for(session_settings(minor))
+        for k in sch.closure(c["rq"]["tys"]):
+            if k not in keys: keys.append(k)
+        for n, k in c["ref"].get("names", {}).items():
+            names[n] = k
+            for kk in sch.closure([["struct", k]]):
+                if kk not in keys: keys.append(kk)
+        c["ref"] = {k: v for k, v in c["ref"].items() if k not in ("tree", "names")}
+    if sch is None: return None
+    return {"nex": sch.settings["nex.version"], "structs": {k: sch.structs[k]["levels"] for k in keys}, "names": names}
 
 
 def fresh_wanted(case, res, rng):
@@ -322,6 +437,7 @@ def fresh_wanted(case, res, rng):
         a = parse_answer(bytes.fromhex(res["sent"][0]))
         if a is None or a["ok"]: return True
     if case["kind"].startswith(("partial", "ok", "random-body", "wrong-type", "wrong-result")): return True
+    if case["kind"].startswith("frame:"): return rng.random() < 0.5
     return rng.random() < 0.1
 
 
@@ -355,6 +471,8 @@ def expectation(case, si, res):
     def answer(x): return ("none",) if si["noresponse"] else x
     if m is None or not m["supported"]: return answer(("err", NOTIMPL))
     if case["extract"] == "other": return answer(("err", PYCODE["other"]))
+    if case["extract"] == "ref" and case["ref"]["out"] == "err":
+        return answer(("err", PYCODE[case["ref"]["cls"]]))       # the parameters cannot be read: the reader's exception, nothing else
     if case["extract"] == "observed" and not res["called"]:
         o = res["observed"] or ""
         if o in PYCODE: return answer(("err", PYCODE[o]))
@@ -377,6 +495,8 @@ def expectation(case, si, res):
         if m["resp"] == "o": return answer(("err", PYCODE["type"]))
         return answer(("err", PYCODE["other"]))
     if res["value_error"]: return ("skip", "no value")
+    if case["extract"] == "ref" and not res["called"] and not (res["observed"] or "").startswith("ret:"):
+        return answer(("okany",))       # readable parameters, a handler that would answer: reading them must not fail
     if mode == "wrongpos":
         # the property: a wrongly typed result is answered with an error response — the PythonCore code of the exception
         # that the validation / encoder raises for it — never with a success. WHICH values are wrongly typed is stated on
@@ -418,6 +538,7 @@ def allowed_calls(case, si):
     m = next((x for x in si["methods"] if x["id"] == case["method"]), None)
     if m is None or not m["supported"] or case["extract"] == "other": return [[]]
     own = [[si["class"], m["user"]]]
+    if case["extract"] == "ref": return [[]] if case["ref"]["out"] == "err" else [own]
     return [own] if case["extract"] == "ok" else [[], own]     # arbitrary body: read completely, or not at all
 
 
@@ -430,16 +551,26 @@ def judge_invocations(case, si, res):
     if ok == [[]]:
         why = ("an unregistered protocol" if si is None else
                "a method id the server does not define" if not any(x["id"] == case["method"] for x in si["methods"]) else
-               "an unsupported method" if case["extract"] != "other" else "a body its parameters cannot be read from")
+               "an unsupported method" if case["extract"] not in ("other", "ref") else "a body its parameters cannot be read from")
+        if res.get("args") and case["extract"] == "ref": ran += " with the arguments " + str(res["args"])[:300]
         return ("handler-invoked", "%s ran for a request with %s: no handler may be invoked" % (ran, why))
     return ("wrong-handler-invoked", "%s ran, expected exactly one invocation of %s.%s" % (ran, ok[-1][0][0], ok[-1][0][1]))
 
 
+def judge_arguments(case, res):
+    """a request whose parameters are readable: the handler is invoked with exactly the values the body carries"""
+    ref = case.get("ref")
+    if case.get("extract") != "ref" or ref["out"] != "ok" or ref.get("nocheck") or not res.get("called") or res.get("args") is None: return None
+    if res["args"] == ref["canon"]: return None
+    return ("handler-arguments", "the handler was invoked with the arguments %s, the request carries %s" % (res["args"][:300], ref["canon"][:300]))
+
+
 def judge_case(case, si, res):
-    """-> None or (key, why): the response(s) first, then which user methods ran"""
+    """-> None or (key, why): the response(s) first, then which user methods ran (and with which arguments)"""
     bad = judge_response(case, si, res)
     who = "%s.%s method %d (%s)" % (case["module"], case["class"], case["method"], case["kind"])
-    inv = judge_invocations(case, si, res)
+    if case.get("what"): who += " [%s; body %s]" % (case["what"], case["body"][:200])
+    inv = judge_invocations(case, si, res) or judge_arguments(case, res)
     if bad and inv: return (bad[0], "%s; moreover %s" % (bad[1], inv[1]))
     if inv: return (inv[0], "%s: %s" % (who, inv[1]))
     return bad
@@ -451,6 +582,7 @@ def judge_response(case, si, res):
     if exp[0] == "skip": return None
     sent = [bytes.fromhex(x) for x in res["sent"]]
     who = "%s.%s method %d (%s)" % (case["module"], case["class"], case["method"], case["kind"])
+    if case.get("what"): who += " [%s; body %s]" % (case["what"], case["body"][:200])
     sc = case["script"]
     if sc["mode"] == "wrongpos":
         w = RES.token_value(sc["w"])
@@ -468,6 +600,9 @@ def judge_response(case, si, res):
     if a is None: return ("malformed-response", "%s: response %s does not parse" % (who, sent[0].hex()))
     if a["protocol"] != case["protocol"] or a["call_id"] != case["call_id"]:
         return ("wrong-ids", "%s: response carries protocol %d call %d, request had %d / %d" % (who, a["protocol"], a["call_id"], case["protocol"], case["call_id"]))
+    if exp[0] == "okany":
+        if not a["ok"]: return ("wrong-outcome", "%s: the parameters are readable (%s) but the request was answered with error %#x" % (who, case["ref"]["canon"][:200], a["code"]))
+        return None
     if exp[0] == "ok":
         if not a["ok"]: return ("wrong-outcome", "%s: expected success, got error %#x" % (who, a["code"]))
         if a["method"] != case["method"] & ~0x8000 and a["method"] != case["method"]:
@@ -574,6 +709,9 @@ def run(ctx):
         nv = len(R.NEX_VERSIONS)
         ver = 100 * (((i + ctx.seed) // 2) % nv)     # quick: one (minor version, NEX version) per class, rotating with the seed
         jobs.append(("server", [s], rng.randrange(1 << 30), ctx.tier, (3 if (i + ctx.seed) % 2 else 0) + ver, all_codes, None))
+        if quick and not (i + ctx.seed) % 2:
+            # structure frames exist only with structure headers: the nested-framing cases of the classes whose one job runs without
+            jobs.append(("frames", [s], rng.randrange(1 << 30), ctx.tier, 3 + ver, all_codes, None))
         if not quick:
             jobs.append(("server", [s], rng.randrange(1 << 30), ctx.tier, (0 if (i + ctx.seed) % 2 else 3) + ver, all_codes, None))
             for k in range(1, nv):
@@ -595,10 +733,21 @@ def run(ctx):
     # model lines: every connection's real request sequence, in order, through the model's `serve` (sbegin / sreq)
     lines, index = [], []
     wlines, windex = [], []     # wrongly typed results: the model's exception (by name) and the Lean twin of `incompatible`
-    for sid, (srvinfos, cases, results, minor, fresh) in enumerate(sessions):
+    gids = {}                   # (structure key, nex.version) -> id of its layout in the driver
+    for sid, (srvinfos, cases, results, minor, fresh, export) in enumerate(sessions):
         lines.append("clear"); index.append(None)
         for si in srvinfos:
             lines.append(srv_line(si)); index.append(None)
+        ids = None
+        if export:
+            nex = export["nex"]
+            ids = lambda key, nex=nex: gids[(key, nex)]
+            new = [k for k in export["structs"] if (k, nex) not in gids]
+            for k in new: gids[(k, nex)] = len(gids) + 1
+            for k in new:
+                lines.append("sdef %d %s" % (gids[(k, nex)], FR.levels_token(export["structs"][k], ids))); index.append(None)
+            for n, k in sorted(export["names"].items()):
+                lines.append("sreg %s %s" % (FR.hx(n.encode("utf8")), gids[(k, nex)])); index.append(None)
         lines.append("sbegin"); index.append(None)
         for cid, (case, res) in enumerate(zip(cases, results)):
             si = srvinfos[case["srv"]] if case["srv"] is not None else None
@@ -618,6 +767,12 @@ def run(ctx):
             ex = case["extract"]
             if ex == "observed":
                 ex = "ok" if (res.get("called") or not (m and m["supported"])) else (res.get("observed") or "ok")
+            if ex == "ref":
+                # the model reads the parameters from the request's own body
+                tok = FR.schema_token(case["rq"]["tys"], ids)
+                ex = "m%d:%s" % (case["rq"]["hdr"], tok)
+                if not res.get("skipped"):      # the reference reader vs its Lean twin
+                    lines.append("rq %d %s %s" % (case["rq"]["hdr"], tok, case["body"] or "-")); index.append((sid, cid, "rq"))
             lines.append("sreq %s %s %s" % (case["datagram"], ex, ut)); index.append((sid, cid))
             if not res.get("skipped"):
                 lines.append("inv %s %s" % (case["datagram"], ex)); index.append((sid, cid, "inv"))
@@ -626,7 +781,7 @@ def run(ctx):
     n_diff, first = 0, None
     n_wrong = n_wrong_incompat = 0
     for line, o, (sid, cid, what) in zip(wlines, wouts, windex):
-        srvinfos, cases, results, minor, fresh = sessions[sid]
+        srvinfos, cases, results, minor, fresh, export = sessions[sid]
         case, res = cases[cid], results[cid]
         if res["value_error"]: continue
         sc = case["script"]
@@ -643,14 +798,25 @@ def run(ctx):
         if o != real_t:
             n_diff += 1
             if first is None: first = (case, res, line + " -> " + o, "the real validation / encoder: " + real_t, minor, [s["class"] for s in srvinfos])
-    n_cases = n_fresh = n_after_fail = n_inv = 0
+    n_cases = n_fresh = n_after_fail = n_inv = n_rq = 0
+    rq_tags = collections.Counter()
     for line, o, ix in zip(lines, outs, index):
         if ix is None:
             if o != "ok": raise vf.InfraError("driver rejected %r: %s" % (line[:80], o))
             continue
-        srvinfos, cases, results, minor, fresh = sessions[ix[0]]
+        srvinfos, cases, results, minor, fresh, export = sessions[ix[0]]
         case, res = cases[ix[1]], results[ix[1]]
         si = srvinfos[case["srv"]] if case["srv"] is not None else None
+        if len(ix) == 3 and ix[2] == "rq":
+            # the reference reader (the oracle for arbitrary bodies) and its Lean twin
+            n_rq += 1
+            ref = case["ref"]
+            mine = ("ok " + ref["canon"]).rstrip() if ref["out"] == "ok" else "err " + ref["cls"]
+            if o.rstrip() != mine:
+                raise vf.InfraError("the reference reader and Lean's readRequest differ on %r: %s / %s" % (line[:300], mine[:300], o[:300]))
+            tag = "read:" + case["kind"].split(":")[0] + ":" + (ref["out"] if ref["out"] == "ok" else ref["cls"])
+            rq_tags[tag] += 1
+            continue
         if len(ix) == 3:
             # the model's dispatch (which server's handle() is entered, with which method id, which user method runs)
             real_d = real_dispatch(srvinfos, res)
@@ -701,6 +867,8 @@ def run(ctx):
             if first is None: first = (case, res, o, real_h + " => " + real, minor, [s["class"] for s in srvinfos])
     ctx.extra["requests_whose_dispatch_and_invoked_user_method_were_compared_with_the_model"] = n_inv
     ctx.extra["requests_compared_with_fresh_connection"] = n_fresh
+    ctx.extra["requests_whose_parameters_were_read_by_the_reference_reader_and_by_the_model"] = n_rq
+    ctx.extra["reference_reading_by_kind_and_outcome"] = dict(sorted(rq_tags.items()))
     ctx.extra["wrongly_typed_result_cases"] = n_wrong
     ctx.extra["wrongly_typed_result_cases_the_property_calls_incompatible"] = n_wrong_incompat
     ctx.extra["successes_right_after_a_mid_encoding_failure"] = n_after_fail
